@@ -119,13 +119,19 @@ func SNPFamilyValidateFunc(familyID string, opts *Options) func(*spb.Attestation
 			serializedEndorsement = blob
 
 		}
-		opts.SNP.Measurement = measurement
+		// The validator may be called repeatedly and concurrently: keep this call's measurement in a
+		// per-call copy of the options instead of the options shared by all calls.
+		callOpts := *opts
+		callOpts.SNP = &SNPOptions{
+			Measurement:         measurement,
+			ExpectedLaunchVMSAs: opts.SNP.ExpectedLaunchVMSAs,
+		}
 		verifhook.Gate("verify.snp.measurement-captured")
 		// Prefer the endorsement provided by the caller.
 		if opts.Endorsement != nil {
-			return EndorsementProto(opts.Endorsement, opts)
+			return EndorsementProto(opts.Endorsement, &callOpts)
 		}
-		return Endorsement(serializedEndorsement, opts)
+		return Endorsement(serializedEndorsement, &callOpts)
 	}
 }
 
